@@ -620,6 +620,10 @@ def r7(ctx):
     c08.r3(ctx)
     c16.r8(ctx)
 
+def r8(ctx):
+    """'...ends that session cleanly and serves the next one': see engine.session_start_resets."""
+    session_start_resets(ctx)
+
 RULES = [
     ("C01.R1", "T1", "every panic site reachable from a spawned task is auto-discharged or reviewed", r1),
     ("C01.R3", "T8", "the length later unwrapped from the tx buffer is the length written", r3),
@@ -627,4 +631,5 @@ RULES = [
     ("C01.R5", "T3", "session end drops all per-connection reader state (reset chain; receive-buffer index discipline)", r5),
     ("C01.R6", "T2/T8", "index ranges taken from the wire are ordered before they reach BTreeMap::range (supports reviewed sites)", r6),
     ("C01.R7", "T2/T2-loop", "an oversized or damaged segment stream and ignored fragments cannot wedge a task: assembler overflow discards (C08.R3), response deadlines fixed before the wait loop (C16.R8)", r7),
+    ("C01.R8", "T2", "reader state is reset before a session's first await (a pre-empted session is dropped without clean-up)", r8),
 ]
